@@ -41,6 +41,15 @@ def _corrupt_centre(evs):
     return None
 
 
+def _corrupt_return(evs):
+    """a Draw of a list recorded as not having come back"""
+    for e in evs:
+        if e.get("ev") == "draw" and not e.get("panic") and e.get("ret") and e["root"]["kind"] == "list":
+            e["ret"] = False
+            return evs
+    return None
+
+
 def _corrupt_paint(evs):
     """the tree the driver built recorded with its first child one column to the left"""
     for e in evs:
@@ -102,6 +111,8 @@ def sig_of(rej, scn):
             if cls.startswith("bounded-assert"):
                 return "C14:draw:panic:%s:%s" % (cls, "max-unbounded" if unb else ("item-of-list" if "list(" in wsig else "bounded"))
             return "C14:draw:panic:%s:%s" % (root, cls)
+        if why == "does-not-return":
+            return "C14:draw:%s:%s:%s" % (why, root, d.get("pmsg", ""))
         if why == "child-larger-than-max":
             return "C14:draw:%s:%s" % (why, "+".join(sorted(d.get("kinds") or [])))
         if why == "larger-than-max":
@@ -140,24 +151,31 @@ def main(c):
         "narrow cell (any), the later surface's cells are demanded exactly",
         "overlapping siblings always get distinct z-indices (the property orders painting by z-index only)",
         "a child that does not fit its centring parent is outside the centring clause",
+        "a Draw counts as not returning when a list whose builder has a widget for every index has asked it for more than "
+        "20000 rows in one Draw (viewports of at most 10 lines; the builder then unwinds the call) or, as a safety net, when "
+        "it has not come back after 120 s",
     ]
     models = None
     if not c.replay:
         # the exhaustive model (all its states are initial states, which TLC computes on one thread) and its two negative
         # controls run beside the driver and the trace validation
-        ex = cf.ThreadPoolExecutor(max_workers=3)
+        ex = cf.ThreadPoolExecutor(max_workers=5)
         models = [ex.submit(c.model_check, specs, "MC_Surface.tla", "MC_Surface.cfg" if c.tier == "quick" else "MC_Surface_deep.cfg", 2),
                   ex.submit(c.model_check, specs, "MC_Surface.tla", "MC_Surface_u16.cfg", 2, 3000, ("-noGenerateSpecTE",), True),
-                  ex.submit(c.model_check, specs, "MC_Surface.tla", "MC_Surface_wide.cfg", 2, 3000, ("-noGenerateSpecTE",), True)]
+                  ex.submit(c.model_check, specs, "MC_Surface.tla", "MC_Surface_wide.cfg", 2, 3000, ("-noGenerateSpecTE",), True),
+                  ex.submit(c.model_check, specs, "MC_SurfaceList.tla", "MC_SurfaceList.cfg", 1),
+                  ex.submit(c.model_check, specs, "MC_SurfaceList.tla", "MC_SurfaceList_asfound.cfg", 1, 3000, ("-noGenerateSpecTE",), True)]
     td = c.drive(drv, "c14", replay=c.replay)
     lap("driver")
     rejects, _ = c.validate_traces(specs, "Surface_Trace.tla", "Surface_Trace.cfg", td)
     lap("trace_validation")
     if models:
-        (ok, _), (ok16, _), (okw, _) = [f.result() for f in models]
+        (ok, _), (ok16, _), (okw, _), (okl, _), (okla, _) = [f.result() for f in models]
         ex.shutdown()
         if not ok:
             raise vcheck.Inconclusive("MC_Surface: the exhaustive model did not complete without error (spec-level problem, not a verdict)")
+        if not okl:
+            raise vcheck.Inconclusive("MC_SurfaceList: the row-loop model did not complete without error (spec-level problem, not a verdict)")
         for m in c.cov["models"]:
             if m["cfg"] == "MC_Surface_u16.cfg":
                 m["note"] = ("negative control: the 16-bit / row<=height transcription of the unrepaired code "
@@ -165,6 +183,11 @@ def main(c):
             if m["cfg"] == "MC_Surface_wide.cfg":
                 m["note"] = ("negative control: a painter that leaves a wide cell in the screen buffer when a later surface "
                              "is painted over its right half must be refuted by the oracle (refuted=%s)" % (not okw))
+            if m["cfg"] == "MC_SurfaceList_asfound.cfg":
+                m["note"] = ("negative control: the row loop of a list without a bound on rows that add no height must be "
+                             "refuted by the invariant Returns (refuted=%s)" % (not okla))
+        if okla:
+            c.notes.append("negative control MC_SurfaceList_asfound was NOT refuted: the row-loop model lost its teeth")
         if ok16:
             c.notes.append("negative control MC_Surface_u16 was NOT refuted: the exhaustive model lost its teeth")
         if okw:
@@ -189,7 +212,7 @@ def main(c):
         c.cov["binding_selftest"] = vselftest.run(
             c, specs, "Surface_Trace.tla", "Surface_Trace.cfg", td, {r["scn"] for r in rejects},
             [("write-index", _corrupt_write), ("draw-size", _corrupt_size), ("draw-centre", _corrupt_centre), ("paint-offset", _corrupt_paint),
-             ("paint-wide", _corrupt_wide)])
+             ("paint-wide", _corrupt_wide), ("draw-no-return", _corrupt_return)])
         lap("binding_selftest")
     c.confirm(drv, "c14", specs, "Surface_Trace.tla", "Surface_Trace.cfg", cands, sig_of)
     lap("confirm")
@@ -199,7 +222,8 @@ def main(c):
         rule="surf: every size in {0,1,2,3,255,256,257,300}^2 (+ sizes around 2^16 cells, random sizes) x boundary coordinates "
              "{0,1,n-2,n-1,n,n+1,65535}^2, each write checked against Surface!WriteEffect; draw: every built-in widget x content "
              "class x max in {0,1,2,3,10,65535}^2 (+min=max, contents of max/max+1/max+7 lines, >65535 cells, one level of "
-             "nesting, list state sequences), checked against LayoutRel; paint: surface trees rendered by the real App.Run "
+             "nesting, list state sequences; lists whose builder never runs out: 10 row classes x width {0,1,2,3,10} x height "
+             "{0,1,3,10} x gutter x gap), checked against LayoutRel; paint: surface trees rendered by the real App.Run "
              "on a fake console (bounded-exhaustive two-level trees, every overlap of two children holding narrow and wide graphemes, "
              "random trees), the console bytes stepped through RefTerm and compared with Surface!Want(tree); "
              "distinct = distinct scenario descriptor")
